@@ -345,10 +345,210 @@ Proof.
           (if (Z.max min (typemin KSigned w) <=? (if neg then - v else v)) &&
               ((if neg then - v else v) <=? Z.min max (typemax KSigned w))
            then OkV (if neg then - v else v) else ERANGE)) as Hcore.
-  { unfold typemin, typemax, ival. rewrite E1. unfold IMIN, IMAX in *.
-    destruct neg; bd; cbn [presult_of o_errno o_stored]; try reflexivity; try (exfalso; lia);
+  { unfold typemin, typemax, ival. rewrite E1.
+    destruct neg; match goal with |- context [v >? ?l] => destruct (Z.gtb_spec v l) end;
+      unfold IMIN, IMAX in *; bd; cbn [presult_of o_errno o_stored]; try reflexivity; try (exfalso; lia);
       unfold presult_of, store, wrap_s; cbn [o_errno o_stored ck cw ST]; rewrite ?E1, ?E2;
       f_equal; rewrite Z.mod_small by lia; lia. }
-  cbv zeta. destruct rest as [|c r]; [|destruct trailing]; cbv iota beta; cbn [map_res]; try reflexivity;
-    f_equal; exact Hcore.
+  cbv zeta. destruct rest as [|c r]; [|destruct trailing]; cbv iota beta; try reflexivity;
+    (revert Hcore;
+     match goal with |- context [let (_, _) := ?X in _] => destruct X as [val e] end;
+     intros Hcore; cbn [map_res]; f_equal; exact Hcore).
+Qed.
+
+(* ================= floating-point targets (M3) ================= *)
+Lemma rd_cstr_at s k :
+  no_nul s -> (k <= length s)%nat ->
+  exists c, rd (cstr s) k = Ok c /\ (c = 0%N <-> k = length s).
+Proof.
+  intros Hn Hk.
+  assert (s = firstn k s ++ skipn k s) as Es by (symmetry; apply firstn_skipn).
+  assert (length (firstn k s) = k) as L by (apply firstn_length_le; exact Hk).
+  remember (firstn k s) as a eqn:Ea. remember (skipn k s) as b eqn:Eb. clear Ea Eb. subst s.
+  destruct (no_nul_app _ _ Hn) as [_ Hr]. rewrite cstr_app.
+  assert (rd (a ++ cstr b) k = rd (cstr b) 0) as -> by (rewrite <- L; apply rd_pre0).
+  rewrite app_length, L.
+  destruct b as [|c r].
+  - exists 0%N. split; [reflexivity|]. simpl. split; intros; [lia|reflexivity].
+  - destruct (no_nul_cons _ _ Hr) as [Hc _]. exists c. split; [reflexivity|].
+    simpl. split; intros; [contradiction|lia].
+Qed.
+
+(* the documented behaviour of the wrapper around strtod, given strtod's answer *)
+Definition float_spec (s : list N) (sd : strtod_res) (trailing : bool) : errno :=
+  if Nat.eqb (sd_consumed sd) 0 then EInval                                     (* no conversion *)
+  else if negb trailing && negb (Nat.eqb (sd_consumed sd) (length s)) then EInval   (* junk *)
+  else if sd_lt_min sd || sd_gt_max sd then ERange
+  else if sd_erange sd then ERange else ENone.
+
+Lemma parsenum_float_run s sd trailing :
+  no_nul s -> (sd_consumed sd <= length s)%nat ->
+  parsenum_float_m (cstr s) sd trailing = Ok (float_spec s sd trailing).
+Proof.
+  intros Hn Hk. unfold parsenum_float_m, float_spec, bad_end.
+  destruct (Nat.eqb (sd_consumed sd) 0); [reflexivity|].
+  destruct trailing; cbn [negb andb bind].
+  - destruct (sd_lt_min sd || sd_gt_max sd); [reflexivity|]. destruct (sd_erange sd); reflexivity.
+  - destruct (rd_cstr_at s (sd_consumed sd) Hn Hk) as (c & Hc & Hz). rewrite Hc. cbn [bind].
+    destruct (N.eqb_spec c 0) as [E|E]; destruct (Nat.eqb_spec (sd_consumed sd) (length s)) as [F|F];
+      cbn [negb].
+    + destruct (sd_lt_min sd || sd_gt_max sd); [reflexivity|]. destruct (sd_erange sd); reflexivity.
+    + exfalso. apply F, Hz, E.
+    + exfalso. apply E, Hz, F.
+    + reflexivity.
+Qed.
+
+Theorem parsenum_float_wrapper_proof w min max trailing s sd :
+  no_nul s -> (sd_consumed sd <= length s)%nat ->
+  exists e,
+    parsenum_ex6 (FT w) (cstr s) min max 0 trailing sd = Ok {| o_errno := e; o_stored := 0 |} /\
+    parsenum_ex4 (FT w) (cstr s) 0 trailing sd = Ok {| o_errno := e; o_stored := 0 |} /\
+    let converted := sd_consumed sd <> 0%nat in
+    let junk := trailing = false /\ sd_consumed sd <> length s in
+    (e = EInval <-> (~ converted \/ junk)) /\
+    (e = ERange <-> (converted /\ ~ junk /\
+                     (sd_lt_min sd = true \/ sd_gt_max sd = true \/ sd_erange sd = true))) /\
+    (* a NaN compares false with both bounds, so it passes any bounds *)
+    (converted -> ~ junk -> sd_class sd = FNan -> sd_lt_min sd = false -> sd_gt_max sd = false ->
+     sd_erange sd = false -> e = ENone).
+Proof.
+  intros Hn Hk. exists (float_spec s sd trailing).
+  unfold parsenum_ex6, parsenum_ex4. cbn [class_float FT ck]. change (0 =? 0) with true. cbv iota.
+  rewrite (parsenum_float_run s sd trailing Hn Hk). cbn [bind].
+  split; [reflexivity|]. split; [reflexivity|]. cbv zeta. unfold float_spec.
+  destruct (Nat.eqb_spec (sd_consumed sd) 0) as [Z0|Z0].
+  { repeat split; try discriminate; try tauto; intros; intuition (try discriminate; try congruence). }
+  destruct trailing; cbn [negb andb].
+  - destruct (sd_lt_min sd), (sd_gt_max sd), (sd_erange sd); cbn [orb];
+      repeat split; try discriminate; try tauto; intros; intuition (try discriminate; try congruence).
+  - destruct (Nat.eqb_spec (sd_consumed sd) (length s)) as [F|F]; cbn [negb].
+    + destruct (sd_lt_min sd), (sd_gt_max sd), (sd_erange sd); cbn [orb];
+        repeat split; try discriminate; try tauto; intros; intuition (try discriminate; try congruence).
+    + repeat split; try discriminate; try tauto; intros; intuition (try discriminate; try congruence).
+Qed.
+
+(* the macro refuses the two improper uses by aborting *)
+Lemma parsenum_float_base_assert w min max base trailing buf sd :
+  base <> 0 -> parsenum_ex6 (FT w) buf min max base trailing sd = AssertFail.
+Proof.
+  intros H. unfold parsenum_ex6. cbn [class_float FT ck]. apply Z.eqb_neq in H. rewrite H. reflexivity.
+Qed.
+
+Lemma parsenum_signed_nobounds_assert w base trailing buf sd :
+  width_ok w -> parsenum_ex4 (ST w) buf base trailing sd = AssertFail.
+Proof.
+  intros Hw. destruct (class_signed_type w Hw) as (C1 & _ & C3 & _).
+  unfold parsenum_ex4. rewrite C1, C3. reflexivity.
+Qed.
+
+(* ================= consequences used for C15 ================= *)
+Lemma parse_spec_in_range k w min max base trailing s v :
+  parse_spec k w min max base trailing s = OkV v ->
+  Z.max min (typemin k w) <= v <= Z.min max (typemax k w).
+Proof.
+  unfold parse_spec. destruct (numeral base (drop_blanks s)) as [[[neg m] rest]|]; [|discriminate].
+  destruct rest as [|c r]; [|destruct trailing; [|discriminate]];
+    (destruct (Z.leb_spec (Z.max min (typemin k w)) (if neg then - m else m));
+     destruct (Z.leb_spec (if neg then - m else m) (Z.min max (typemax k w)));
+     cbn [andb]; intros Hok; inversion Hok; subst; lia).
+Qed.
+
+Theorem parsenum_unsigned_safe_proof w min max base trailing s sd :
+  width_ok w -> IMIN <= min <= UMAX -> IMIN <= max <= UMAX -> base_ok base ->
+  bytes_ok s -> no_nul s ->
+  exists o, parsenum_ex6 (UT w) (cstr s) min max base trailing sd = Ok o /\
+            forall v, presult_of o = OkV v -> Z.max min 0 <= v <= Z.min max (2 ^ w - 1).
+Proof.
+  intros Hw Hmin Hmax Hbase Hb Hn.
+  pose proof (parsenum_unsigned_exact_proof w min max base trailing s sd Hw Hmin Hmax Hbase Hb Hn) as E.
+  destruct (parsenum_ex6 (UT w) (cstr s) min max base trailing sd) as [o| | |]; try discriminate.
+  exists o. split; [reflexivity|]. intros v Hv. cbn [map_res] in E. inversion E as [E'].
+  rewrite Hv in E'. symmetry in E'. exact (parse_spec_in_range _ _ _ _ _ _ _ _ E').
+Qed.
+
+Theorem parsenum_signed_safe_proof w min max base trailing s sd :
+  width_ok w ->
+  typemin KSigned w <= min <= typemax KSigned w -> typemin KSigned w <= max <= typemax KSigned w ->
+  base_ok base -> bytes_ok s -> no_nul s ->
+  exists o, parsenum_ex6 (ST w) (cstr s) min max base trailing sd = Ok o /\
+            forall v, presult_of o = OkV v -> min <= v <= max.
+Proof.
+  intros Hw Hmin Hmax Hbase Hb Hn.
+  pose proof (parsenum_signed_exact_proof w min max base trailing s sd Hw Hmin Hmax Hbase Hb Hn) as E.
+  destruct (parsenum_ex6 (ST w) (cstr s) min max base trailing sd) as [o| | |]; try discriminate.
+  exists o. split; [reflexivity|]. intros v Hv. cbn [map_res] in E. inversion E as [E'].
+  rewrite Hv in E'. symmetry in E'. pose proof (parse_spec_in_range _ _ _ _ _ _ _ _ E'). lia.
+Qed.
+
+(* ================= regression: the code before the fix "parsenum must reject negative numbers for
+   unsigned targets" (F4), i.e. parsenum_unsigned without the final sign test ================= *)
+Local Open Scope res_scope.
+Definition parsenum_unsigned_old (buf : list N) (min max tmax base : Z) (trailing : bool)
+  : res (Z * errno) :=
+  let* (ve, rng) := strtoumax_m buf base in
+  let (val, e) := ve in
+  let err := if rng then ERange else ENone in
+  let* bad := bad_end buf e trailing in
+  if bad then Ok (val, EInval)
+  else if (val <? min) || (val >? max) || (val >? tmax) then Ok (val, ERange)
+  else Ok (val, err).
+
+Definition parsenum_ex6_unsigned_old (w : Z) (buf : list N) (min max base : Z) (trailing : bool) : res outcome :=
+  let x := wrap_u w (-1) in
+  let* (val, e) := parsenum_unsigned_old buf (u64 (if min <=? 0 then 0 else min)) (u64 max) (u64 x)
+                                         base trailing in
+  let e' := if max <=? IMAX
+            then (if (s64 max <? 0) && (match e with ENone => true | _ => false end) then ERange else e)
+            else e in
+  Ok {| o_errno := e'; o_stored := wrap_u w val |}.
+
+Definition sd_none : strtod_res :=
+  {| sd_consumed := 0; sd_erange := false; sd_lt_min := false; sd_gt_max := false; sd_class := FFinite |}.
+
+(* "-1" into uintmax_t with bounds 0 .. UINTMAX_MAX: the old code stored 2^64-1 and reported success;
+   the spec, and the code as it is now, say ERANGE *)
+Example old_code_accepts_minus_one :
+  parsenum_ex6_unsigned_old 64 (cstr [45; 49]%N) 0 UMAX 0 false
+    = Ok {| o_errno := ENone; o_stored := 18446744073709551615 |} /\
+  parse_spec KUnsigned 64 0 UMAX 0 false [45; 49]%N = ERANGE /\
+  map_res presult_of (parsenum_ex6 (UT 64) (cstr [45; 49]%N) 0 UMAX 0 false sd_none) = Ok ERANGE.
+Proof. vm_compute. auto. Qed.
+
+(* "-18446744073709551615" used to yield 1 even into uint32_t *)
+Example old_code_wraps_into_uint32 :
+  let s := [45; 49; 56; 52; 52; 54; 55; 52; 52; 48; 55; 51; 55; 48; 57; 53; 53; 49; 54; 49; 53]%N in
+  parsenum_ex6_unsigned_old 32 (cstr s) 0 4294967295 10 false = Ok {| o_errno := ENone; o_stored := 1 |} /\
+  map_res presult_of (parsenum_ex6 (UT 32) (cstr s) 0 4294967295 10 false sd_none) = Ok ERANGE.
+Proof. vm_compute. auto. Qed.
+
+(* ================= non-vacuity: the hypotheses of M1 / M2 / M3 have ordinary instances ================= *)
+Example m1_instance :   (* " -128" into int8_t, bounds INT8_MIN .. INT8_MAX, base 0 *)
+  width_ok 8 /\ typemin KSigned 8 <= -128 <= typemax KSigned 8 /\ typemin KSigned 8 <= 127 <= typemax KSigned 8 /\
+  base_ok 0 /\ bytes_ok [32; 45; 49; 50; 56]%N /\ no_nul [32; 45; 49; 50; 56]%N /\
+  map_res presult_of (parsenum_ex6 (ST 8) (cstr [32; 45; 49; 50; 56]%N) (-128) 127 0 false sd_none) = Ok (OkV (-128)) /\
+  map_res presult_of (parsenum_ex6 (ST 8) (cstr [49; 50; 56]%N) (-128) 127 0 false sd_none) = Ok ERANGE.
+Proof.
+  unfold width_ok, base_ok, bytes_ok, no_nul, is_byte.
+  repeat split; try (vm_compute; congruence); try lia; try reflexivity;
+    repeat constructor; try lia; try discriminate.
+Qed.
+
+Example m2_instance :   (* "0x1F" and "0x1Fz" into uint16_t with a negative minimum, base 16 *)
+  width_ok 16 /\ IMIN <= -5 <= UMAX /\ IMIN <= 40 <= UMAX /\ base_ok 16 /\
+  bytes_ok [48; 120; 49; 70]%N /\ no_nul [48; 120; 49; 70]%N /\
+  map_res presult_of (parsenum_ex6 (UT 16) (cstr [48; 120; 49; 70]%N) (-5) 40 16 false sd_none) = Ok (OkV 31) /\
+  map_res presult_of (parsenum_ex6 (UT 16) (cstr [48; 120; 49; 70; 122]%N) (-5) 40 16 false sd_none) = Ok EINVAL /\
+  map_res presult_of (parsenum_ex6 (UT 16) (cstr [48; 120; 49; 70; 122]%N) (-5) 40 16 true sd_none) = Ok (OkV 31).
+Proof.
+  unfold width_ok, base_ok, bytes_ok, no_nul, is_byte, IMIN, UMAX.
+  repeat split; try (vm_compute; congruence); try lia; try reflexivity;
+    repeat constructor; try lia; try discriminate.
+Qed.
+
+Example m3_instance :   (* "nan" (3 characters consumed) passes the bounds 0 .. 1 *)
+  let sd := {| sd_consumed := 3; sd_erange := false; sd_lt_min := false; sd_gt_max := false; sd_class := FNan |} in
+  no_nul [110; 97; 110]%N /\ (sd_consumed sd <= length [110; 97; 110]%N)%nat /\
+  parsenum_ex6 (FT 64) (cstr [110; 97; 110]%N) 0 1 0 false sd = Ok {| o_errno := ENone; o_stored := 0 |}.
+Proof.
+  cbv zeta. unfold no_nul. repeat split; try (simpl; lia); repeat constructor; discriminate.
 Qed.
